@@ -322,21 +322,28 @@ class from_state(DataStreamProcessor):
             yield self._rows(i, rows)
 
 
-def materialise(*links, via='datastream'):
-    """Run Flow(*links) and return its explicit State (raw rows unless via='results')."""
+def materialise(*links, via='datastream', twice=False, between=None):
+    """Run Flow(*links) and return its explicit State (raw rows unless via='results').
+    twice: the same Flow object (hence the same step objects) is executed once before the execution that is reported; a first
+    execution that fails is reported as it is. between: called between the two executions (e.g. to clear a call log)."""
+    flow = Flow(*links)
+    if twice:
+        flow.process()
+        if between is not None:
+            between()
     if via == 'datastream':
-        ds = Flow(*links).datastream()
+        ds = flow.datastream()
         rows, tags = [], []
         for res in ds.res_iter:
             tags.append(res.res.name)
             rows.append(list(res))
         return State(copy.deepcopy(ds.dp.descriptor), rows, tags)
     elif via == 'results':
-        results, dp, _ = Flow(*links).results()
+        results, dp, _ = flow.results()
         return State(copy.deepcopy(dp.descriptor), results, None)
     elif via == 'results_raw':
         # through the driver (exceptions wrapped into ProcessorError) but without the final validation pass
-        results, dp, _ = Flow(*links).results(on_error=None)
+        results, dp, _ = flow.results(on_error=None)
         return State(copy.deepcopy(dp.descriptor), results, None)
     raise ValueError(via)
 
